@@ -10,7 +10,8 @@ SHARD = 80
 RULE = ("port lists of 0..6 entries from a descriptor grammar: Windows 'USB Serial Device (COMn)' + 'USB VID:PID=04D8:FD92 SER=<tag> LOCATION=..', macOS/Linux "
         "'EiBotBoard,<name>' and bare 'EiBotBoard', pyserial-2.7 'SNR=<tag>', foreign devices, names of length 0..16 and tags shorter than 3, names that are "
         "prefixes of one another; lookups by listed name, SER tag, device name and (COMn) in upper/lower/mixed case, plus absent names and None; "
-        "both layers; non-trivial = at least two EBB ports in the list")
+        "both layers, and for the class layer also connect(name) on an object that discovered another (decoy) board before - the port it tries to open; "
+        "non-trivial = at least two EBB ports in the list")
 TRUSTED = ["pyserial's comports() replaced by the generated list (tuples of device, description, hwid)"]
 ASSUMPTIONS = ["ASCII descriptor strings"]
 
@@ -69,6 +70,25 @@ def run_impl(c):
            "list_l": None if ll is None else [p[0] for p in ll], "list_3": None if l3 is None else [p[0] for p in l3],
            "names_l": ebb_serial.list_named_ebbs(), "names_3": ebb3_serial.list_named_ebbs(),
            "lookups": [[ebb_serial.find_named_ebb(n), ebb3_serial.find_named(n)] for n in c["lookups"]]}
+    # connect(name) on an object with a history: it discovered a (decoy) board earlier; which port does it try to open now?
+    import serial
+    opened = []
+    def fake_serial(name, timeout=None):
+        opened.append(name); raise serial.SerialException("cannot open (harness)")
+    real = ebb3_serial.serial.Serial
+    ebb3_serial.serial.Serial = fake_serial
+    try:
+        out["objlk"] = []
+        for n in c["lookups"]:
+            obj = ebb3_serial.EBB3()
+            ebb3_serial.comports = lambda: [("/dev/ttyDECOY", "EiBotBoard", "USB VID:PID=04D8:FD92 SER=Decoy LOCATION=9")]
+            obj.find_first()
+            ebb3_serial.comports = lambda: list(ports)
+            del opened[:]
+            obj.connect(n)
+            out["objlk"].append(opened[0] if opened else None)
+    finally:
+        ebb3_serial.serial.Serial = real
     # the listing functions must also return the matching ports themselves, in order
     out["same_objects"] = (ll is None or all(p in ports for p in ll)) and (l3 is None or all(p in ports for p in l3))
     return out
@@ -79,10 +99,11 @@ def _otl(v): return "None" if v is None else "(Some %s)" % clist([ctext(x) for x
 def coq_case(c, r):
     ports = clist(["(%s, %s, %s)" % (ctext(p[0]), ctext(p[1]), ctext(p[2])) for p in c["ports"]])
     if "raise" in r or not r.get("same_objects", False):
-        return "(K19 %s (Some [0%%Z]) None None None None None [])" % ports          # cannot satisfy the property
+        return "(K19 %s (Some [0%%Z]) None None None None None [] [])" % ports          # cannot satisfy the property
     lk = clist(["(%s, %s, %s)" % (_ot(n), _ot(a), _ot(b)) for n, (a, b) in zip(c["lookups"], r["lookups"])])
-    return "(K19 %s %s %s %s %s %s %s %s)" % (ports, _ot(r["first_l"]), _ot(r["first_3"]), _otl(r["list_l"]), _otl(r["list_3"]),
-                                              _otl(r["names_l"]), _otl(r["names_3"]), lk)
+    ol = clist(["(%s, %s)" % (_ot(n), _ot(o)) for n, o in zip(c["lookups"], r["objlk"])])
+    return "(K19 %s %s %s %s %s %s %s %s %s)" % (ports, _ot(r["first_l"]), _ot(r["first_3"]), _otl(r["list_l"]), _otl(r["list_3"]),
+                                                 _otl(r["names_l"]), _otl(r["names_3"]), lk, ol)
 
 def nontrivial(c, r):
     return r.get("list_l") is not None and len(r["list_l"]) >= 2
